@@ -216,6 +216,7 @@ func (svc *service) stop() {
 	if !doit {
 		return
 	}
+	defer verifEvent("stop.done", svc, 0, 0, 0, "")
 
 	// Close quit channel, effectively telling all the goroutines it's time to quit
 	if svc.done != nil {
@@ -288,9 +289,11 @@ func (svc *service) publish(msg *message.PublishMessage, onComplete OnCompleteFu
 		return nil
 
 	case message.QosAtLeastOnce:
+		verifSvcYield(svc, "pub.between")
 		return svc.sess.Pub1ack.Wait(msg, onComplete)
 
 	case message.QosExactlyOnce:
+		verifSvcYield(svc, "pub.between")
 		return svc.sess.Pub2out.Wait(msg, onComplete)
 	}
 
@@ -374,6 +377,7 @@ func (svc *service) subscribe(msg *message.SubscribeMessage, onComplete OnComple
 		return err2
 	}
 
+	verifSvcYield(svc, "sub.between")
 	return svc.sess.Suback.Wait(msg, onc)
 }
 
@@ -436,6 +440,7 @@ func (svc *service) unsubscribe(msg *message.UnsubscribeMessage, onComplete OnCo
 		return err2
 	}
 
+	verifSvcYield(svc, "unsub.between")
 	return svc.sess.Unsuback.Wait(msg, onc)
 }
 
@@ -447,6 +452,7 @@ func (svc *service) ping(onComplete OnCompleteFunc) error {
 		return fmt.Errorf("(%s) Error sending %s message: %v", svc.cid(), msg.Name(), err)
 	}
 
+	verifSvcYield(svc, "ping.between")
 	return svc.sess.Pingack.Wait(msg, onComplete)
 }
 
